@@ -53,6 +53,9 @@ def check(ctx: Ctx) -> None:
     # understands (a per-file marker written by _register_inflight)
     from .c06 import data_writes_protected
     data_writes_protected(ctx, "C05.R13")
+    # the collector's reachable set is what the parsers hand it: a parser that drops entries makes live files look unreachable
+    from .c14 import parsers_keep_every_entry
+    parsers_keep_every_entry(ctx, "C05.R14")
 
 
 class Contrib:
